@@ -74,6 +74,19 @@ def brief(trace, upto=None):
                                          (" reply=" + json.dumps(s["reply"])) if "reply" in s else ""))
     return lines
 
+def corpus_cases(prop):
+    """Committed witnesses (corpus/<prop>/*.json with a runnable "case"): replayed first in every tier."""
+    d = os.path.join(VERIF, "corpus", prop)
+    out = []
+    if os.path.isdir(d):
+        for f in sorted(os.listdir(d)):
+            if f.endswith(".json"):
+                c = json.load(open(os.path.join(d, f))).get("case")
+                if c and "_script" in c:
+                    c = dict(c); c["family"] = "corpus/" + f[:-5]
+                    out.append(c)
+    return out
+
 def run_property(prop, tier, seed, gen, rule, assumptions, pins_targets=None, profiles=("dev",), extra_check=None):
     o = Outcome(prop, tier, seed)
     o.rule = rule
@@ -88,7 +101,7 @@ def run_property(prop, tier, seed, gen, rule, assumptions, pins_targets=None, pr
         if not ok:
             o.corr_failures.append(("harness (%s) does not compile against /repo's working tree: %s" % (profile, log[-1500:]), {"build_log": log[-3000:]}))
             return finish(o)
-        cases = gen(tier, seed)
+        cases = corpus_cases(prop) + gen(tier, seed)
         try:
             keep, verdicts, skewed = run_traces(binary, cases, prop + profile)
         except RuntimeError as ex:
@@ -111,6 +124,9 @@ def run_property(prop, tier, seed, gen, rule, assumptions, pins_targets=None, pr
             if k_reply:
                 o.internal.append(desc_head + ": simulated node reply differs from Node.v at step %d" % k_reply)
                 continue
+            if prop == "C06" and (kf & 1) and any(x.get("o") == "panic" for st in t["steps"] for x in st["out"]):
+                # the monitor waives C06 inside the class; the panic (KF-A) is what is observed on the implementation
+                o.kf_hits["kf_read_error"] = o.kf_hits.get("kf_read_error", 0) + 1
             if mask & (1 << bit):
                 payload = {"profile": profile, "family": c["family"], "first_violation_step": first, "violated_mask": mask,
                            "history": brief(t, first + 2), "case": {k: v for k, v in c.items() if not k.startswith("_")}, "trace": t}
